@@ -71,7 +71,7 @@ class C04Src(SrcWorld, RetryMixin):
     name = "SRC-C04"
 
     def init_model(self, st):
-        st.m = {"proc": None, "phase": "pre", "ncancel": 0}
+        st.m = {"proc": None, "phase": "pre", "ncancel": 0, "nnak": 0}
 
     def enabled(self, st):
         m = st.m
@@ -81,6 +81,8 @@ class C04Src(SrcWorld, RetryMixin):
         step = st.S.h.states.step.name
         if step == "WAITING_FOR_EOF_ACK" and m["proc"] is not None:
             evs.append(("ackeof", m["proc"]["pdu"]["cond"]))
+            if m["nnak"] < 2 and self.c["size"] > 0:
+                evs.append(("nak", ((0, min(2, self.c["size"])),)))  # a retransmission request is not an acknowledgement
         if m["ncancel"] < 1 and st.S.h.state.name == "BUSY" and m["phase"] in ("pre", "eof"):
             evs.append(("cancel", "right"))
         if clock.next_expiry(st.S.h) is not None:
@@ -101,7 +103,16 @@ class C04Src(SrcWorld, RetryMixin):
 
         if ev[0] == "cancel":
             m["ncancel"] += 1
-        if pre["proc"] is not None:
+        if ev[0] == "nak":
+            m["nnak"] += 1
+        if pre["proc"] is not None and ev[0] == "nak":
+            # the call serves the retransmission and nothing else; the retry clock keeps running, the count is kept
+            same = [d for d in emitted if strip(d) == pre["proc"]["pdu"]]
+            lim = [f for f in faults if f["cond"] == "POSITIVE_ACK_LIMIT_REACHED"]
+            if same or lim:
+                bad("C04.retry_in_nak_call", f"a call that serves a NAK re-sent the EOF / declared the limit ({len(same)} EOF, {len(lim)} declarations)")
+            m["proc"] = dict(pre["proc"])
+        elif pre["proc"] is not None:
             res = self.judge_retry(m=m, pre=pre, ev=ev, out=out, emitted=emitted, faults=faults, fins=self.inds(out, "finished"), N=N,
                                    interval=ACK_MS, what="EOF" if pre["proc"]["kind"] == "eof" else "EOF (cancel)", bad=bad,
                                    is_progress=(ev[0] == "ackeof" and not self.exc(out)) or (ev[0] == "cancel" and out.get("ret") is True),
